@@ -18,7 +18,7 @@ import (
 	"google.golang.org/protobuf/proto"
 )
 
-var c13MountKeys = []string{"/", "/m0", "/m1", "/m1/", "/m1/sub", "/m1/sub/deep", "/m2", "/m2/x/y", "/etc/m4", "/etc", "rel/m5", "rel"}
+var c13MountKeys = []string{"/", "/m0", "/m1", "/m1/", "/m1/sub", "/m1/sub/deep", "/m2", "/m2/x/y", "/etc/m4", "/etc", "rel/m5", "rel", "/m1//sub/", "//etc/", "/m2/./x//"}
 
 type c13Case struct {
 	ID    string                   `json:"id"`
@@ -31,32 +31,32 @@ type c13Case struct {
 func c13Interpret(v *CView, a *api.ContainerAdjustment) {
 	// annotations: removals, then sets (a set wins over a removal of the same key)
 	for k := range a.Annotations {
-		if key, m := api.IsMarkedForRemoval(k); m {
+		if key, m := markedForRemoval(k); m {
 			delete(v.Ann, key)
 		}
 	}
 	for k, x := range a.Annotations {
-		if _, m := api.IsMarkedForRemoval(k); !m {
+		if _, m := markedForRemoval(k); !m {
 			v.Ann[k] = x
 		}
 	}
 	for _, e := range a.Env {
-		if key, m := e.IsMarkedForRemoval(); m {
+		if key, m := markedForRemoval(e.Key); m {
 			delete(v.Env, key)
 		}
 	}
 	for _, e := range a.Env {
-		if _, m := e.IsMarkedForRemoval(); !m {
+		if _, m := markedForRemoval(e.Key); !m {
 			v.Env[e.Key] = e.Value
 		}
 	}
 	for _, m := range a.Mounts {
-		if key, mk := m.IsMarkedForRemoval(); mk {
+		if key, mk := markedForRemoval(m.Destination); mk {
 			delete(v.Mounts, key)
 		}
 	}
 	for _, m := range a.Mounts {
-		if _, mk := m.IsMarkedForRemoval(); !mk {
+		if _, mk := markedForRemoval(m.Destination); !mk {
 			v.Mounts[m.Destination] = mountStr(m)
 		}
 	}
@@ -80,12 +80,12 @@ func c13Interpret(v *CView, a *api.ContainerAdjustment) {
 	}
 	if l := a.Linux; l != nil {
 		for _, d := range l.Devices {
-			if key, mk := d.IsMarkedForRemoval(); mk {
+			if key, mk := markedForRemoval(d.Path); mk {
 				delete(v.Devs, key)
 			}
 		}
 		for _, d := range l.Devices {
-			if _, mk := d.IsMarkedForRemoval(); !mk {
+			if _, mk := markedForRemoval(d.Path); !mk {
 				v.Devs[d.Path] = devStr(d)
 			}
 		}
@@ -224,8 +224,23 @@ func (g *mgen) genC13(id string) *c13Case {
 			g.adjRemove(a, x.kind, x.key)
 		}
 	}
-	if g.chance(0.3) {
-		a.Hooks = &api.Hooks{Prestart: []*api.Hook{g.hook()}, Poststop: []*api.Hook{g.hook(), g.hook()}}
+	if g.chance(0.15) {
+		// decoy: removal of the different item named "-key" (wire "--key") must leave key alone
+		k := kinds[g.rng.IntN(len(kinds))]
+		if k.removable && k.keyed {
+			g.adjRemove(a, k.name, "-"+g.pick(k.keys))
+			c.Modes = append(c.Modes, k.name+":decoy")
+		}
+	}
+	if g.chance(0.4) {
+		// every hook kind, 0-2 hooks each, on specs that may already carry hooks of any kind
+		a.Hooks = &api.Hooks{}
+		for _, l := range []*[]*api.Hook{&a.Hooks.Prestart, &a.Hooks.CreateRuntime, &a.Hooks.CreateContainer, &a.Hooks.StartContainer, &a.Hooks.Poststart, &a.Hooks.Poststop} {
+			for n := g.rng.IntN(3); n > 0; n-- {
+				*l = append(*l, g.hook())
+			}
+		}
+		c.Modes = append(c.Modes, "hooks")
 	}
 	sort.Strings(c.Modes)
 	return c
@@ -362,7 +377,7 @@ func deviceRuleDiff(before, after *rspec.Spec, a *api.ContainerAdjustment) strin
 	}
 	var want []string
 	for _, d := range a.GetLinux().GetDevices() {
-		if _, marked := d.IsMarkedForRemoval(); !marked {
+		if _, marked := markedForRemoval(d.Path); !marked {
 			want = append(want, fmt.Sprintf("allow=true %s %d:%d", d.Type, d.Major, d.Minor))
 		}
 	}
